@@ -78,6 +78,8 @@ def zbool(x):
         return z3.BoolVal(len(x) > 0)
     if isinstance(x, SSeq):
         return x.length > 0
+    if hasattr(x, "truth"):
+        return x.truth
     raise Unsupported(f"truthiness of {type(x).__name__}")
 
 
@@ -434,7 +436,17 @@ class Executor:
                 else:
                     raise Unsupported("continue/break escaped the function")
         except (Unsupported, ContractError) as e:
+            if os.environ.get("VERIF_DEBUG"):
+                import traceback
+
+                traceback.print_exc()
             self.obligations.append(Obligation(name=f"{self.contract.prefix}.extract", function=self.contract.qualname, status=ERROR, backend="pyvc", formula="symbolic execution of the function body", detail=f"{type(e).__name__}: {e}"))
+        except Exception as e:  # an engine bug must never look like a verdict
+            if os.environ.get("VERIF_DEBUG"):
+                import traceback
+
+                traceback.print_exc()
+            self.obligations.append(Obligation(name=f"{self.contract.prefix}.extract", function=self.contract.qualname, status=ERROR, backend="pyvc", formula="symbolic execution of the function body", detail=f"engine error {type(e).__name__}: {e}"))
         self.seconds = time.time() - t0
         return self.obligations
 
@@ -496,7 +508,10 @@ class Executor:
                 return [(st, Signal.NORMAL, None)]
             outs = []
             for s, v in self.eval(node.value, st):
-                outs.append((s, Signal.NORMAL, None))
+                if type(v).__name__ == "Raised":
+                    outs.append((s, Signal.RAISE, v.exc))
+                else:
+                    outs.append((s, Signal.NORMAL, None))
             return outs
         if isinstance(node, (ast.Assign, ast.AnnAssign)):
             if isinstance(node, ast.AnnAssign):
@@ -507,6 +522,9 @@ class Executor:
                 targets = node.targets
             outs = []
             for s, v in self.eval(node.value, st):
+                if type(v).__name__ == "Raised":
+                    outs.append((s, Signal.RAISE, v.exc))
+                    continue
                 for t in targets:
                     self.assign(t, v, s)
                 outs.append((s, Signal.NORMAL, None))
@@ -575,7 +593,7 @@ class Executor:
 
     def branch(self, st, cond, body, orelse):
         outs = []
-        if isinstance(cond, (bool, int, type(None), str, tuple, list)) and not is_sym(cond):
+        if isinstance(cond, (bool, int, type(None), str, tuple, list, dict)) and not is_sym(cond):
             return self.exec_block(body if cond else orelse, st)
         c = zbool(cond)
         cs = z3.simplify(c)  # only to recognise literal conditions; the original shape is kept for the solver's triggers
